@@ -15,7 +15,7 @@ RULE = ("histories: one data set entered (a) at construction, (b) by fill one va
         "(c) by fill_n over a random partition (with empty chunks and NaNs), (d) by a mixture, on 1D (regular/irregular/gapped) "
         "and 2-3D (right-open / right-closed axes) fixed bins, keep_missed on/off, weights none/int/dyadic; every fill / fill_n is "
         "checked by the per-call delta monitor and find_bin agreement, final states of all paths are compared; "
-        "non-trivial = >= 2 entry paths compared, >= 1 value outside the bins, >= 1 value on / one ulp beside an edge")
+        "non-trivial = >= 2 entry paths compared, >= 1 value outside the bins, >= 1 value on / one ulp beside an edge The ND construction path is entered through h(..., keep_missed=) and from_calculate_frequencies; the flag the histogram reports and the missed weight are compared with fill / fill_n.")
 ASSUMPTIONS = [
     "exact comparison for int64/float64 contents with dyadic weights; statistics are not part of C03's comparison",
     "fill(NaN) is judged against 'NaN is skipped' (known finding fill.nan_value, the only one left)",
